@@ -513,7 +513,10 @@ func (ex *Exec) writeTo(fr *frame, w value, s value) {
 	name := wi.t.String()
 	if strings.HasSuffix(name, ".verifRecorder") {
 		ex.OutGoat = append(ex.OutGoat, strSegs(s)...)
-		return
+		if _, concrete := s.(string); !concrete {
+			return
+		}
+		// concrete text also goes through the recorder's real Write so that harnesses can read it back
 	}
 	if name == "*os.File" {
 		ex.emit(fr, strSegs(s))
@@ -897,6 +900,79 @@ func (ex *Exec) mapFSFiles(sys value) map[string]*value {
 		files[str(e.k, "file name")] = e.v.(*value)
 	}
 	return files
+}
+
+func (e *Engine) registerBuilder() {
+	bufOf := func(a []value) *value {
+		p := a[0].(*value)
+		if p == nil {
+			rtPanic("invalid memory address or nil pointer dereference")
+		}
+		return &(*p).(structure)[1]
+	}
+	appendBytes := func(fr *frame, cell *value, bs []value) {
+		s, _ := (*cell).(*sliceV)
+		n := sliceLen(s)
+		cells := make([]value, n+len(bs))
+		for i := 0; i < n; i++ {
+			cells[i] = *s.at(i)
+		}
+		copy(cells[n:], bs)
+		*cell = newSliceOf(cells)
+	}
+	toBytes := func(fr *frame, s value) []value {
+		bs, ok := fr.ex.byteTerms(s)
+		if !ok {
+			unsupported("strings.Builder with rendered segments")
+		}
+		out := make([]value, len(bs))
+		for i, b := range bs {
+			if b.IsConst() {
+				out[i] = b.C
+			} else {
+				out[i] = b
+			}
+		}
+		return out
+	}
+	e.Register("(*strings.Builder).WriteString", func(fr *frame, a []value) value {
+		bs := toBytes(fr, a[1])
+		appendBytes(fr, bufOf(a), bs)
+		return tuple{fr.mkInt(int64(len(bs))), iface{}}
+	})
+	e.Register("(*strings.Builder).WriteByte", func(fr *frame, a []value) value {
+		appendBytes(fr, bufOf(a), []value{a[1]})
+		return iface{}
+	})
+	e.Register("(*strings.Builder).WriteRune", func(fr *frame, a []value) value {
+		r, ok := a[1].(uint64)
+		if !ok {
+			unsupported("strings.Builder.WriteRune of a symbolic rune")
+		}
+		bs := toBytes(fr, string(rune(int32(r))))
+		appendBytes(fr, bufOf(a), bs)
+		return tuple{fr.mkInt(int64(len(bs))), iface{}}
+	})
+	e.Register("(*strings.Builder).Write", func(fr *frame, a []value) value {
+		bs := strSlice(a[1], "")
+		appendBytes(fr, bufOf(a), bs)
+		return tuple{fr.mkInt(int64(len(bs))), iface{}}
+	})
+	e.Register("(*strings.Builder).String", func(fr *frame, a []value) value {
+		s, _ := (*bufOf(a)).(*sliceV)
+		n := sliceLen(s)
+		vals := make([]value, n)
+		for i := 0; i < n; i++ {
+			vals[i] = *s.at(i)
+		}
+		return strFromBytes(vals)
+	})
+	e.Register("(*strings.Builder).Len", func(fr *frame, a []value) value {
+		s, _ := (*bufOf(a)).(*sliceV)
+		return fr.mkInt(int64(sliceLen(s)))
+	})
+	e.Register("(*strings.Builder).Reset", func(fr *frame, a []value) value { *bufOf(a) = (*sliceV)(nil); return nil })
+	e.Register("(*strings.Builder).Grow", func(fr *frame, a []value) value { return nil })
 }
 
 func (e *Engine) registerFS() {
